@@ -159,7 +159,9 @@ class Agent(metaclass=ABCMeta):
                 if itr_event in relevant_events:
                     continue
                 relevant_events.append(itr_event)
-            elif self._time < itr_event.time or fpe_equals(itr_event.time, self._time):
+            elif self._time < itr_event.time and not fpe_equals(itr_event.time, self._time):
+                # [NOTE]: an impulse at exactly the current time already fired at the end of the previous
+                #   propagation (its event function is zero there), keeping it would apply it a second time
                 relevant_events.append(itr_event)
         self.propagate_event_queue = relevant_events
 
